@@ -107,6 +107,7 @@ func loadStruct(w *World, h HeapView, so Sort, st *types.Struct, ref Term) Term 
 }
 
 func fieldComp(so Sort, field string) string { return "F!" + string(so) + "!" + field }
+
 // memCompT names the heap component holding the backing arrays whose element
 // type is t.  Arrays of different Go element types can never alias (no unsafe
 // code in the verified subset), so they live in different components.
@@ -123,13 +124,17 @@ func memCompT(t types.Type) string {
 // compElemTypes remembers the Go element type of every M! component (VC
 // generation is single-threaded).
 var compElemTypes = map[string]types.Type{}
-func cellComp(so Sort) string               { return "P!" + sanitize(string(so)) }
-func mapDomComp(k, v Sort) string           { return "MD!" + sanitize(string(k)) + "!" + sanitize(string(v)) }
-func mapValComp(k, v Sort) string           { return "MV!" + sanitize(string(k)) + "!" + sanitize(string(v)) }
+
+func cellComp(so Sort) string     { return "P!" + sanitize(string(so)) }
+func mapDomComp(k, v Sort) string { return "MD!" + sanitize(string(k)) + "!" + sanitize(string(v)) }
+func mapValComp(k, v Sort) string { return "MV!" + sanitize(string(k)) + "!" + sanitize(string(v)) }
 
 // mapSizeComp: map sizes, one component per (key sort, value sort) like the
 // domain/value components, so that maps of different types never alias
-func mapSizeComp(ks, vs Sort) string { return "MS!" + sanitize(string(ks)) + "!" + sanitize(string(vs)) }
+func mapSizeComp(ks, vs Sort) string {
+	return "MS!" + sanitize(string(ks)) + "!" + sanitize(string(vs))
+}
+
 const allocComp = "alloc"
 
 func memSort(elem Sort) Sort { return ArraySort(SInt, ArraySort(SInt, elem)) }
@@ -372,7 +377,7 @@ func strEqLit(s Term, lit string) Term {
 	return And(cs...)
 }
 
-func StrLen(s Term) Term    { return App("slen!", SInt, s) }
+func StrLen(s Term) Term   { return App("slen!", SInt, s) }
 func StrAt(s, i Term) Term { return App("sat!", SInt, s, i) }
 
 func (e *SpecEnv) quant(x EQuant) SVal {
@@ -768,16 +773,16 @@ type compRef struct {
 }
 
 type specInfo struct {
-	sf       *SpecFunc
-	params   []SVal
-	result   Sort
-	resultGo types.Type
-	reads    []compRef
-	deps     map[string]bool
-	text     []string // SMT definition lines (declare/define + axioms)
-	bodyText string   // body of a macro-defined function
+	sf          *SpecFunc
+	params      []SVal
+	result      Sort
+	resultGo    types.Type
+	reads       []compRef
+	deps        map[string]bool
+	text        []string // SMT definition lines (declare/define + axioms)
+	bodyText    string   // body of a macro-defined function
 	formalNames []string
-	declOnly string   // declare-fun line for recursive functions
+	declOnly    string // declare-fun line for recursive functions
 }
 
 // recordingHeap hands out parameter symbols for heap components.
